@@ -84,6 +84,10 @@ fn run_entry(entry: &str, input: &str, trace: bool) -> Result<Option<dmntk_feel:
 /// Integer literals ≥ 1000 together with an iteration construct: evaluation may legitimately
 /// take long (the property excludes large iteration domains), so it is not attempted.
 fn evaluation_may_be_long(input: &str) -> bool {
+  // an input marked by the harness as iterating over a handful of elements, whatever its numerals look like
+  if input.starts_with("/*small*/") {
+    return false;
+  }
   let iterates = input.contains("..") || input.contains("for ") || input.contains("some ") || input.contains("every ");
   let mut run = 0;
   let mut big = false;
@@ -901,6 +905,18 @@ pub fn run(cfg: &Cfg) -> Report {
     "{f: function(n) f(n), r: f(1)}.r",
     "number(\"1\\u00002\", \",\", \".\")",
     "sort([43, 22, 38, 45, 17, 47, 31, 1, 37, 3, 43, 1, 23, 16, 40, 29, 19, 37, 38, 2, 9, 14, 33, 8, 21, 5], function(x,y) x != y)",
+    // iteration domains of two or three elements at the ends of the machine integers
+    "/*small*/ for i in 9223372036854775806..9223372036854775807 return i",
+    "/*small*/ for i in 9223372036854775807..9223372036854775805 return i",
+    "/*small*/ for i in -9223372036854775807..-9223372036854775808 return i",
+    "/*small*/ for i in -9223372036854775808..-9223372036854775806 return i",
+    "/*small*/ some i in 9223372036854775806..9223372036854775807 satisfies i < 0",
+    "/*small*/ every i in -9223372036854775807..-9223372036854775808 satisfies i < 0",
+    "/*small*/ for i in 9223372036854775806..9223372036854775807, j in 1..2 return j",
+    "/*small*/ for i in 18446744073709551614..18446744073709551615 return i",
+    "/*small*/ for i in 9223372036854775807..9223372036854775808 return i",
+    "for in.x in [1,2,3] return 1",
+    "some in+y in [1,2] satisfies true",
     "",
     " ",
     "\"",
